@@ -129,13 +129,16 @@ def urlEnc : Bytes → Bytes
 /-- spelling variants of a link label that match the same definition (section 4.7 / 6.3: case-insensitive,
     internal whitespace collapsed, leading and trailing whitespace stripped) -/
 def labelVariant (v : Nat) (l : Bytes) : Bytes :=
-  match v % 6 with
+  match v % 9 with
   | 0 => l
   | 1 => l.map upper
   | 2 => l.map lower
   | 3 => l.flatMap fun c => if c == 32 then [32, 32] else [c]
   | 4 => [32] ++ l ++ [32]
-  | _ => [32] ++ (l.map upper).flatMap (fun c => if c == 32 then [32, 32] else [c])
+  | 5 => [32] ++ (l.map upper).flatMap (fun c => if c == 32 then [32, 32] else [c])
+  | 6 => l.map fun c => if c == 32 then 9 else c                      -- a tab is white space inside a label
+  | 7 => (l.map lower).flatMap fun c => if c == 32 then [32, 9] else [c]
+  | _ => [9] ++ l ++ [9]
 
 def normLabel (l : Bytes) : Bytes := l.map lower
 
